@@ -95,6 +95,9 @@ def case_strategy(draw: Any, proto: str) -> Dict[str, Any]:
             "max_app_queue_size": draw(st.sampled_from([1, 2, 3, 10])),
             "h11_pass_raw_headers": draw(st.booleans()) if proto == "h1" else False,
             "root_path": draw(st.sampled_from(["", "", "/api", "/a/b/"])),
+            # server_names configured, with every name the clients here ask for among them:
+            # the requests are served as if it were not set
+            "server_names": draw(st.sampled_from([[], [], SERVED_NAMES])),
         },
         "app": {"pre_delay": draw(st.sampled_from([0, 0, 0.5, 2.0])),
                 "recv_delay": draw(st.sampled_from([0, 0, 0, 0.01, 1.0])),
@@ -399,6 +402,10 @@ def programs_for(case: Dict[str, Any]) -> Dict[str, list]:
     return programs
 
 
+SERVED_NAMES = ["unrelated.example", "example.com", "localhost:8080", "[::1]:443", "a.b", "a",
+                "[::1]:8443", "EXAMPLE.com", "xn--bcher-kva.example", "10.0.0.1", "twin.example"]
+
+
 def run_case(case: Dict[str, Any]) -> CaseInfo:
     cfg = dict(case["cfg"])
     cfg["keep_alive_timeout"] = T_BIG
@@ -449,6 +456,8 @@ def run_case(case: Dict[str, Any]) -> CaseInfo:
         classes.append("second_connection")
     if case["cfg"]["h11_pass_raw_headers"]:
         classes.append("raw_headers")
+    if case["cfg"].get("server_names"):
+        classes.append("server_names_set")
     nontrivial = (any(r["body_len"] > 0 for r in reqs) or case["seg"]["mode"] != "one"
                   or any("%" in r["path"] for r in reqs)
                   or any(len({h[0].lower() for h in r["headers"]}) < len(r["headers"])
